@@ -7,6 +7,7 @@ package main
 
 import (
 	"go/token"
+	"go/types"
 
 	"golang.org/x/tools/go/ssa"
 )
@@ -172,4 +173,33 @@ func (in *Interp) tryMerge(fr *Frame, ins *ssa.If, c *Term) bool {
 	fr.prev, fr.block = predT, join
 	in.merges++
 	return true
+}
+
+// symCellMax bounds the cells physically modelled for a symbolic-length slice.
+const symCellMax = 70000
+
+// makeSymSlice models make([]T, n) with a symbolic n as a symbolic-length
+// slice. Only scalar element types are supported; small ranges are left to
+// concretisation by fork.
+func (in *Interp) makeSymSlice(ins *ssa.MakeSlice, lt *Term) (SliceV, bool) {
+	et := ins.Type().Underlying().(*types.Slice).Elem()
+	if _, _, ok := intWidth(et); !ok {
+		return SliceV{}, false
+	}
+	_, hi, _ := in.F.urange(lt)
+	if hi <= 16 {
+		return SliceV{}, false
+	}
+	if _, signed, _ := intWidth(ins.Len.Type()); signed {
+		if in.decide(in.F.SLt(lt, in.F.Const(64, 0))) {
+			in.goPanicRuntime("makeslice: len out of range")
+		}
+	}
+	cells := hi
+	if cells > symCellMax {
+		cells = symCellMax
+	}
+	sl := in.makeSlice(et, int(cells), int(cells))
+	sl.slen = lt
+	return sl, true
 }
